@@ -2,7 +2,7 @@
 import ast
 
 from .. import compq, pyq
-from ..pysrc import dotted, norm
+from ..pysrc import dotted, norm, flat
 from .c05 import check_scopefn_params
 from .c06 import check_scope_routing
 
@@ -100,7 +100,7 @@ def check(ctx, src):
               "DECL-ERROR", f"{SC}|ScopeGlobal.__exit__|no-binding", "a module-level nonlocal of an undefined name is no longer rejected", SC, ge.lineno, detail="raise SyntaxError")
     ld = sc.func("ScopeLet.define_nonlocal")
     ctx.require(ld is not None, "ScopeLet.define_nonlocal not found")
-    t = " ".join(ast.unparse(ld).split())
+    t = flat(ld)
     ctx.check("while isinstance(cur, ScopeLet)" in t and "cur.define_nonlocal(node, root)" in t and "cur.bindings[name] = name" in t and "node.names.remove(name)" in t, "OUTERVAR-RESOLVE",
               f"{SC}|ScopeLet.define_nonlocal|walk", "a declaration inside a let must be applied to the enclosing lets of the same Python scope and then passed to it", SC, ld.lineno, detail="walk lets; delegate")
     check_scope_routing(ctx, comp)
